@@ -1039,7 +1039,7 @@ impl<K: KeyT, V: ValT> MapWorld<K, V> {
 
     /// The map seen as a map of plain-data pairs, if that is what it is (the by-reference `Extend` impls need
     /// `K: Copy, V: Copy`, which a generic world cannot promise).
-    fn pod_map(m: &mut SMap<K, V>) -> Option<&mut SMap<crate::elem::PodKey, u32>> {
+    pub(crate) fn pod_map(m: &mut SMap<K, V>) -> Option<&mut SMap<crate::elem::PodKey, u32>> {
         if std::any::TypeId::of::<(K, V)>() == std::any::TypeId::of::<(crate::elem::PodKey, u32)>() {
             // SAFETY: the two types are the same type
             Some(unsafe { &mut *(m as *mut SMap<K, V> as *mut SMap<crate::elem::PodKey, u32>) })
